@@ -28,6 +28,11 @@
        gconns gnotifs nidx idx^nidx
        dir 0: G dials R at the listed addresses; dir 1: R dials G, the single
        listed address is R's source address as G sees it.
+       tpt = transport + 16 * opt; transport 0 tcp 1 quic 2 ws 3 webtransport (informative);
+       opt = what G's dial context carries: 0 plain, 1 WithForceDirectDial,
+       2 WithSimultaneousConnect(client), 3 WithAllowLimitedConn, 4 WithNoDial (NewStream),
+       5 (dir 1 only) a server-role QUIC hole punch of G towards R is in flight while the
+       rules are written and R connects inbound.
        pipeline events recorded by the delegating gater / counting transport:
          1 p allow 0   InterceptPeerDial        2 idx allow 0  InterceptAddrDial (address idx)
          3 idx 0 0     transport Dial (idx)     4 allow 0 0    InterceptAccept
@@ -323,6 +328,7 @@ Fixpoint conform_trace (prs : list probe) (st : gstate) (i : Z) (tr : list (even
 (* ======================================================================== *)
 Record e2e := mkE2E {
   x_inbound : bool;
+  x_opt : dialopt;
   x_reachable : bool;
   x_calls : list event;
   x_peer : Z;
@@ -408,7 +414,7 @@ Definition monitor_e2e (x : e2e) : list Z :=
 Definition model_pipeline (x : e2e) : list pev :=
   let m := g_mem (run init_state (x_calls x)) in
   if x_inbound x then inbound full_sites m (x_peer x) (hd None (x_addrs x))
-  else outbound full_sites m (x_peer x) (x_addrs x).
+  else outbound_opt full_sites (x_opt x) m (x_peer x) (x_addrs x).
 
 (* conformance for an end-to-end run.  The real dialer is concurrent and
    stops at the first success, so the recorded events are compared as
@@ -710,9 +716,13 @@ Fixpoint dec_pevs (n : nat) (l : list Z) : option (list pev * list Z) :=
       end
   end.
 
+Definition dec_opt (z : Z) : dialopt :=
+  if z =? 1 then OForceDirect else if z =? 2 then OSimConnect else if z =? 3 then OAllowLimited
+  else if z =? 4 then ONoDial else if z =? 5 then OSimConnect else OPlain.
+
 Definition dec_e2e (l : list Z) : option e2e :=
   match l with
-  | dir :: _tpt :: reach :: nc :: r0 =>
+  | dir :: tpt :: reach :: nc :: r0 =>
       match cnt nc with
       | Some c0 =>
           match dec_calls c0 r0 with
@@ -730,7 +740,7 @@ Definition dec_e2e (l : list Z) : option e2e :=
                                   match dec_zs c3 r3 with
                                   | Some (idx, []) =>
                                       if ((dir =? 0) || (dir =? 1)) && ((dir =? 0) || (c1 =? 1)%nat)
-                                      then Some (mkE2E (zbool dir) (zbool reach) calls p addrs evs gc gn idx)
+                                      then Some (mkE2E (zbool dir) (dec_opt (tpt / 16)) (zbool reach) calls p addrs evs gc gn idx)
                                       else None
                                   | _ => None
                                   end
